@@ -5,6 +5,7 @@ import copy
 
 from common import Outcome, np, rng_for, run_driver
 
+RULE_ADDENDA = ("the caller's sample byte-identical after fit/compare; column-vector samples = flat samples (KF-C14-1); multi-column mismatch table")
 LEVEL = "proof"
 EXPLANATION = ("Theorems (Lean): compare returns the state unchanged, its result is a function of (reference, test, parameters) so any reordering/repetition gives the "
                "same results, the error decision tables of fit/compare, reset unfits. This run drives all 17 batch detectors and both streaming data-drift detectors "
